@@ -147,6 +147,9 @@ def tlc_model(module, cfg, workers=None, env=None, timeout=3600,
     mv = re.search(r'Error: Action property (\S+) is violated', out)
     if mv:
         res['violated'] = mv.group(1)
+    mv = re.search(r'Temporal property (\S+) was violated', out)
+    if mv:
+        res['violated'] = res['violated'] or mv.group(1)
     if 'Temporal properties were violated' in out:
         res['violated'] = res['violated'] or 'temporal'
     if 'Error: Deadlock reached' in out:
